@@ -24,6 +24,9 @@ def prop_module(pid):
 def shard_main(pid, specfile, outfile):
     spec = json.load(open(specfile))
     ctx = core.Ctx(pid, spec['tier'], spec['seed'], spec.get('shard'))
+    env = core.call_environment()
+    ctx.count('shards_run_with_TZ=%s' % (env['TZ'] or 'unset'))
+    ctx.count('shards_run_in_%s' % ('the harness directory' if env['cwd_is_verif_root'] else 'a scratch working directory of their own'))
     try:
         mod = prop_module(pid)
         mod.run_shard(spec, ctx)
@@ -51,10 +54,19 @@ def run_one_shard(pid, spec, tmpdir, idx, timeout):
     # keep numpy single-threaded inside a shard; parallelism is across shards
     for k in ('OMP_NUM_THREADS', 'OPENBLAS_NUM_THREADS', 'MKL_NUM_THREADS'):
         env[k] = '1'
+    shenv = core.shard_environment(spec.get('shard'))
+    if shenv['TZ']:
+        env['TZ'] = shenv['TZ']
+    else:
+        env.pop('TZ', None)
+    cwd = core.VERIF_ROOT
+    if shenv['own_cwd']:
+        cwd = os.path.join(tmpdir, 'cwd%d' % idx)
+        os.makedirs(cwd, exist_ok=True)
     t0 = time.time()
     try:
         p = subprocess.run(cmd, env=env, timeout=timeout, capture_output=True, text=True,
-                           cwd=core.VERIF_ROOT)
+                           cwd=cwd)
     except subprocess.TimeoutExpired:
         return {'shard': spec.get('shard'), 'counters': {}, 'buckets': [], 'samples': [], 'viol': {},
                 'maxima': {}, 'info': {}, 'monitors': {}, 'wall_s': time.time() - t0,
@@ -153,7 +165,7 @@ def conclude(pid, mod, tier, seed, m, wall):
         os.makedirs(rdir, exist_ok=True)
         rp = os.path.join(rdir, '%s-%s.json' % (safe(mech), core.stable_hash(w['case'])))
         with open(rp, 'w') as f:
-            json.dump({'property': pid, 'mechanism': mech, 'case': w['case'], 'detail': w['detail'],
+            json.dump({'property': pid, 'mechanism': mech, 'case': w['case'], 'detail': w['detail'], 'env': w.get('env'),
                        'seed': seed, 'tier': tier, 'count': v['count'],
                        'python': platform.python_version(), 'repo_root': core.repo_root()}, f, indent=1)
         lines.append('VIOLATION property=%s replay=%s' % (pid, rp))
@@ -230,6 +242,7 @@ def replay_main(pid, mod, path):
     rec = json.load(open(path))
     ctx = core.Ctx(pid, rec.get('tier', 'quick'), rec.get('seed', 0), 'replay')
     os.environ.setdefault(core.GUARD, '1')
+    core.apply_environment(rec.get('env'))
     try:
         mod.replay(rec['case'], ctx)
     except core.Inconclusive as e:
